@@ -118,7 +118,9 @@ def run(ctx: Ctx):
             preludes.slash_zones(ids[:40])      # history: calendars that re-define IANA ids written with a leading slash
             for tzid in ids:
                 tz = tzp.timezone(tzid)
-                if tz is None:
+                if tz is None or (prov == "pytz" and tzid not in pytz.all_timezones_set):
+                    # not a zone of this provider (e.g. "Factory" under pytz; after the slash-zone prelude the id may resolve to
+                    # the calendar-defined zone of that name, which is C12's subject)
                     continue
                 key = "UTC" if tzid == "UTC" else tzid
                 # wall times: around transitions of the provider zone (1970-2037 scanned), midpoints, random 1900-2100
